@@ -191,7 +191,7 @@ def parse_shape(R, ctx):
     EFF = [PUSHSTR, r'parse_level_filter$', r'Vec::<T, A>::push$', r'as std::iter::Iterator>::next$']
     I = FDI(f, effects=EFF, no_inline=NI, no_models=[r'Iterator>?::any$'], loop_k=ctx.k(1, 2), max_steps=80000, max_rows=80000)
     rows = I.run(b.path, arg_names=['spec'])
-    bad_ok = bad_push = None
+    bad_ok = bad_push = bad_ws = None
     n_ok = n_err = n_errseg = n_ws = 0
     for r in rows:
         if r.undecided:
@@ -227,7 +227,13 @@ def parse_shape(R, ctx):
                 if sg['push']:
                     bad_push = "a segment that produced an error text (invalid level / whitespace in the name / malformed part) is still pushed to the result"
         n_ws += sum(1 for a, v in r.cond if re.search(r'is_whitespace', a) and v is True)
-    if not (bad_ok or bad_push) and (n_ok < 2 or n_err < 2 or n_errseg < 2 or n_ws < 1):
+        # the notion of whitespace must be the one str::trim uses (char::is_whitespace): a narrower test (ASCII only, bytes) lets a
+        # name with interior Unicode whitespace pass as well-formed although trimming treats that character as whitespace
+        for a, v in r.cond:
+            if re.search(r'is_ascii_whitespace|u8>::is_ascii_whitespace|\bbytes\(', a) and re.search(r'whitespace', a):
+                bad_ws = f"a name is tested for whitespace with {a[:120]}: narrower than str::trim's Unicode whitespace, so `foo\\u{{a0}}bar=debug` is accepted as a module filter without an error"
+    R.check('R17.3', f"{b.path}|whitespace-notion", not bad_ws, "names are tested with char::is_whitespace (the notion str::trim uses)", f"LogSpecification::parse: {bad_ws}", where=b.loc())
+    if not (bad_ok or bad_push or bad_ws) and (n_ok < 2 or n_err < 2 or n_errseg < 2 or n_ws < 1):
         raise CheckError(f"R17.3: form of parse not recognised (ok rows {n_ok}, error rows {n_err}, erroneous segments {n_errseg}, whitespace cases {n_ws})")
     R.check('R17.3', f"{b.path}|ok-iff-no-error-text", not bad_ok, f"{n_ok} Ok rows all behind parse_errs.is_empty(); {n_err} rows return parse_err(text, spec)",
             f"LogSpecification::parse can return Ok although an error text was collected: {bad_ok}", where=b.loc(), sample={'rows': len(rows)})
